@@ -623,7 +623,30 @@ def float_cmp(ex, op, x, y):
 def float_binop(ex, op, x, y):
     if op in ('Eq', 'Lt', 'Le', 'Gt', 'Ge', 'Ne'):
         return float_cmp(ex, op, x, y)
-    return fresh_f64(ex, 'f' + op.lower())
+    r = fresh_f64(ex, 'f' + op.lower())
+    # IEEE round-to-nearest: a finite op on finite operands is the exact result within a relative 2^-52 (+ one
+    # subnormal step); applied where the exact result is linear in the symbolic operand (an operand is concrete)
+    fx = x if isinstance(x, F64) else F64(Fraction(x) if is_conc(x) else x, False, False)
+    fy = y if isinstance(y, F64) else F64(Fraction(y) if is_conc(y) else y, False, False)
+    if op in ('Add', 'Sub', 'Mul', 'Div') and not isinstance(fx.val, F64) and not isinstance(fy.val, F64):
+        linear = op in ('Add', 'Sub') or is_conc(fy.val) or (op == 'Mul' and is_conc(fx.val))
+        if linear and not (op == 'Div' and is_conc(fy.val) and fy.val == 0):
+            a, b = (Fraction(fx.val) if is_conc(fx.val) else zreal(fx.val)), (Fraction(fy.val) if is_conc(fy.val) else zreal(fy.val))
+            e = {'Add': lambda: a + b, 'Sub': lambda: a - b, 'Mul': lambda: a * b, 'Div': lambda: a / b}[op]()
+            e = zreal(e)
+            finite = z3.And(z3.Not(zbool(fx.nan)), z3.Not(zbool(fy.nan)), z3.Not(zbool(fx.inf)), z3.Not(zbool(fy.inf)))
+            ae = z3.If(e >= 0, e, -e)
+            err = ae * zreal(Fraction(1, 2 ** 52)) + zreal(Fraction(1, 2 ** 1074))
+            ex.assume(z3.Implies(finite, z3.And(z3.Not(zbool(r.nan)), zreal(r.val) - e <= err, e - zreal(r.val) <= err)))
+    if op == 'Rem' and not isinstance(fx.val, F64) and is_conc(fy.val) and fy.val != 0 and fy.nan is False and fy.inf is False:
+        # fmod is exact: x - y * trunc(x / y)
+        b = Fraction(fy.val)
+        a = Fraction(fx.val) if is_conc(fx.val) else zreal(fx.val)
+        q = r_trunc(a / b)
+        e = zreal(a) - zreal(b) * z3.ToReal(zint(q))
+        finite = z3.And(z3.Not(zbool(fx.nan)), z3.Not(zbool(fx.inf)))
+        ex.assume(z3.Implies(finite, z3.And(z3.Not(zbool(r.nan)), zreal(r.val) == e)))
+    return r
 
 
 def float_cast(ex, kind, v, src_ty, ty):
@@ -657,6 +680,10 @@ def wrap_sat(i, ty):
 
 # ============================================================================= dispatch
 
+class Decline(Exception):
+    """raised by a model whose pattern matched but which does not handle these arguments"""
+
+
 class Lib:
     def __init__(self):
         self.values_eq = values_eq
@@ -667,8 +694,12 @@ class Lib:
         for pat, f, name in MODELS:
             m = pat.search(nc)
             if m:
+                try:
+                    r = f(ex, m, args, callee)
+                except Decline:
+                    continue            # this model does not apply to these arguments: try the next matching one
                 ex.models_used.add(name)
-                return f(ex, m, args, callee)
+                return r
         raise Unmodelled('callee %s   [normalised: %s]' % (callee, nc))
 
 
@@ -1141,6 +1172,7 @@ def m_format(ex, m, args, callee):
         i = 0
         k = 0
         okk = True
+        symbolic = False
         while i < len(tpl):
             b = tpl[i]
             if b == 0:
@@ -1151,11 +1183,17 @@ def m_format(ex, m, args, callee):
                     break
                 fa = val(fargs[k])
                 k += 1
-                txt = _display_text(ex, fa.info[1]) if (isinstance(fa, Opaque) and fa.tag == 'fmtarg' and fa.info[0] == 'new_display') else None
+                is_disp = isinstance(fa, Opaque) and fa.tag == 'fmtarg' and fa.info[0] == 'new_display'
+                txt = _display_text(ex, fa.info[1]) if is_disp else None
                 if txt is None:
-                    okk = False
-                    break
-                out.append(txt)
+                    if not is_disp:
+                        okk = False
+                        break
+                    # a Display argument whose text is not determined: keep the value itself as a piece
+                    symbolic = True
+                    out.append(('display', val(fa.info[1])))
+                else:
+                    out.append(txt)
                 i += 1
                 continue
             if b < 0x80:
@@ -1164,8 +1202,11 @@ def m_format(ex, m, args, callee):
                 continue
             okk = False
             break
-        if okk:
+        if okk and not symbolic:
             return ''.join(out)
+        if okk:
+            # literal pieces and ('display', value) pieces in order: harness posts can read the structure
+            return Opaque('string', ('pieces', out))
     return Opaque('string', 'formatted')
 
 
@@ -1254,12 +1295,19 @@ class SymSet:
         return s_
 
 
-@model(r'^IndexSet::(new|insert_full|insert|len|contains|is_empty)$')
+@model(r'^(?:IndexSet|HashSet|BTreeSet)::(new|insert_full|insert|len|contains|is_empty)$')
 def m_indexset(ex, m, args, callee):
+    """sets of *symbolic* values (IndexSet always; std sets when they hold BigRat remainders): membership by forking on
+    equality.  std sets with concrete keys are handled by the map models below."""
     k = m.group(1)
+    std = not callee.lstrip('<').startswith('IndexSet') and 'IndexSet' not in callee.split('::<')[0]
     if k == 'new':
+        if std and 'BigRat' not in callee:
+            raise Decline()
         return SymSet()
     st = val(args[0])
+    if not isinstance(st, SymSet):
+        raise Decline()
     if k == 'len':
         return len(st.items)
     if k == 'is_empty':
@@ -1945,7 +1993,7 @@ def m_f64(ex, m, args, callee):
 
 @model(r'^<f64 as (Add|Sub|Mul|Div|Rem)(<.*>)?>::(add|sub|mul|div|rem)$')
 def m_f64_ops(ex, m, args, callee):
-    return fresh_f64(ex, m.group(3))
+    return float_binop(ex, m.group(1), val(args[0]), val(args[1]))
 
 
 # ----------------------------------------------------------------------------- BTreeMap / BTreeSet / HashSet
